@@ -2,6 +2,7 @@ package store
 
 import (
 	"context"
+	"errors"
 	"fmt"
 	"io"
 
@@ -30,12 +31,29 @@ func (u *UseCase) Get(ctx context.Context, key string) (io.ReadCloser, error) {
 		filter.BeforeSeq = ptr.Ptr(tx.Seq)
 	}
 
-	f, err := u.fRepo.Get(ctx, tx.Id, key, filter)
-	if err != nil {
-		return nil, fmt.Errorf("file repository get: %w", err)
-	}
+	// The version is resolved under the version lists' lock, its content is opened
+	// afterwards without one: an overwrite followed by a collection pass in between
+	// removes the content of the version resolved here. The key still has a value
+	// then, so the version is resolved again; a version that fails twice is gone.
+	var prevContentId string
+	for {
+		f, err := u.fRepo.Get(ctx, tx.Id, key, filter)
+		if err != nil {
+			return nil, fmt.Errorf("file repository get: %w", err)
+		}
 
-	verifhook.At("get.afterLookup")
+		verifhook.At("get.afterLookup")
+		content, err := u.openContent(ctx, f)
+		if errors.Is(err, fs_db.ErrNotFound) && f.ContentId != prevContentId {
+			prevContentId = f.ContentId
+			continue
+		}
+
+		return content, err
+	}
+}
+
+func (u *UseCase) openContent(ctx context.Context, f model.File) (io.ReadCloser, error) {
 	cf, err := u.cfRepo.Get(ctx, f.ContentId)
 	if err != nil {
 		return nil, fmt.Errorf("content file repository get: %w", err)
